@@ -618,6 +618,9 @@ def _eng_cases(rng, tier):
         qs, qtexts = [], []
         for n_ in (1, m, m + 1):
             qs.append(("ord", not low, n_, 0, None)); qtexts.append(f"QUERY t ORDER BY k{'' if low else ' DESC'} LIMIT {n_}")
+        # ... and with OFFSET: the page must still come out of that shard's memory (its local top-k has n+m rows)
+        for (n_, m_) in ((1, max(0, m - 1)), (m + 1, 1)):
+            qs.append(("ord", not low, n_, m_, None)); qtexts.append(f"QUERY t ORDER BY k{'' if low else ' DESC'} LIMIT {n_} OFFSET {m_}")
         script += [("quiesce",), ("cmd", "QUERY t")] + _qblock(qtexts)
         script += [("cmd", "FLUSH"), ("quiesce",), ("cmd", "QUERY t")] + _qblock(qtexts)
         out.append({"kind": "engine", "line": "", "cfg": cfg, "script": [list(x) for x in script], "evs": evs, "qs": qs, "qtexts": qtexts,
